@@ -99,6 +99,128 @@ Proof.
   intros z. destruct (Z_lt_le_dec z 0); [now apply decimal_neg | now apply decimal_nonneg].
 Qed.
 
+(* hexadecimal text (ints of more than MAX_DECIMAL_BITS bits) *)
+Lemma hex_value_digit d : 0 <= d < 16 -> hex_value (hex_digit d) = Some d.
+Proof.
+  intros H. unfold hex_value, hex_digit. destruct (d <? 10) eqn:E.
+  - replace ((48 <=? 48 + d) && (48 + d <=? 57)) with true by lia. f_equal. lia.
+  - replace ((48 <=? 87 + d) && (87 + d <=? 57)) with false by lia.
+    replace ((97 <=? 87 + d) && (87 + d <=? 102)) with true by lia. f_equal. lia.
+Qed.
+
+Lemma parse_hex_digits : forall f n acc,
+  0 <= n < 16 ^ Z.of_nat f ->
+  parse_hex (hex_digits f n acc) 0 = parse_hex acc n.
+Proof.
+  induction f as [|f IH]; intros n acc H.
+  - cbn in H. assert (n = 0) by lia. subst. reflexivity.
+  - cbn [hex_digits]. destruct (Z.ltb_spec n 16) as [L|L].
+    + cbn [parse_hex]. rewrite hex_value_digit by lia. f_equal.
+    + rewrite IH.
+      * cbn [parse_hex]. rewrite hex_value_digit by lia. f_equal. lia.
+      * rewrite Nat2Z.inj_succ, Z.pow_succ_r in H by lia. lia.
+Qed.
+
+Lemma hex_fuel_enough z : 0 <= z -> 0 <= z < 16 ^ Z.of_nat (Z.to_nat (Z.log2 z) + 1).
+Proof.
+  intros Hz. split; [exact Hz|].
+  pose proof (Z.log2_nonneg z) as L.
+  rewrite Nat2Z.inj_add, Z2Nat.id by exact L. cbn [Z.of_nat Pos.of_succ_nat].
+  destruct (Z.eq_dec z 0) as [->|NZ].
+  - cbn. lia.
+  - assert (z < 2 ^ (Z.log2 z + 1)).
+    { pose proof (Z.log2_spec z ltac:(lia)) as S. unfold Z.succ in S. lia. }
+    assert (2 ^ (Z.log2 z + 1) <= 16 ^ (Z.log2 z + 1)).
+    { apply Z.pow_le_mono_l. lia. }
+    lia.
+Qed.
+
+Lemma hex_roundtrip_nonneg z : 0 <= z ->
+  parse_hex (hex_digits (Z.to_nat (Z.log2 z) + 1) z []) 0 = Some z.
+Proof. intros Hz. rewrite parse_hex_digits by (now apply hex_fuel_enough). reflexivity. Qed.
+
+Lemma hex_digits_acc_nonempty : forall f n acc, acc <> [] -> hex_digits f n acc <> [].
+Proof.
+  induction f as [|f IH]; intros n acc H; cbn [hex_digits]; [exact H|].
+  destruct (n <? 16); [discriminate|]. apply IH. discriminate.
+Qed.
+Lemma hex_digits_nonempty : forall f n acc, hex_digits (S f) n acc <> [].
+Proof.
+  intros f n acc. cbn [hex_digits]. destruct (n <? 16); [discriminate|].
+  apply hex_digits_acc_nonempty. discriminate.
+Qed.
+
+Definition is_digit (d : Z) : bool := (48 <=? d) && (d <=? 57).
+Lemma pos_digits_all : forall f n acc, 0 <= n -> forallb is_digit acc = true -> forallb is_digit (pos_digits f n acc) = true.
+Proof.
+  induction f as [|f IH]; intros n acc Hn Ha; cbn [pos_digits]; [exact Ha|].
+  destruct (Z.ltb_spec n 10).
+  - cbn [forallb]. rewrite Ha. unfold is_digit. lia.
+  - apply IH; [lia|]. cbn [forallb]. rewrite Ha. unfold is_digit. lia.
+Qed.
+Lemma digits_not_0x s : forallb is_digit s = true -> starts_0x s = false.
+Proof.
+  destruct s as [|a [|b r]]; cbn [starts_0x forallb]; try reflexivity.
+  unfold is_digit. intros H. lia.
+Qed.
+Lemma decimal_text_plain z : parse_int_text (decimal z) = parse_int (decimal z).
+Proof.
+  unfold decimal. destruct (z <? 0) eqn:E.
+  - set (d := pos_digits _ _ _).
+    assert (Hd : forallb is_digit d = true) by (apply pos_digits_all; [lia|reflexivity]).
+    unfold parse_int_text. cbn [starts_0x].
+    destruct d as [|a r] eqn:Ed; [reflexivity|].
+    replace (starts_0x (45 :: a :: r)) with false by (cbn [starts_0x]; lia).
+    replace ((45 =? 45) && starts_0x (a :: r)) with false; [reflexivity|].
+    rewrite (digits_not_0x _ Hd). reflexivity.
+  - set (d := pos_digits _ _ _).
+    assert (Hd : forallb is_digit d = true) by (apply pos_digits_all; [lia|reflexivity]).
+    unfold parse_int_text. rewrite (digits_not_0x _ Hd).
+    destruct d as [|a r]; [reflexivity|].
+    cbn [forallb] in Hd. unfold is_digit in Hd. replace (a =? 45) with false by lia. reflexivity.
+Qed.
+
+Lemma hex_text_roundtrip z : parse_int_text (hex_text z) = Some z.
+Proof.
+  unfold hex_text. destruct (z <? 0) eqn:E.
+  - unfold parse_int_text. cbn [starts_0x]. replace ((45 =? 48) && (48 =? 120)) with false by reflexivity.
+    replace ((45 =? 45) && ((48 =? 48) && (120 =? 120))) with true by reflexivity. cbn [skipn].
+    replace (Z.to_nat (Z.log2 (- z)) + 1)%nat with (S (Z.to_nat (Z.log2 (- z)))) by lia.
+    pose proof (hex_digits_nonempty (Z.to_nat (Z.log2 (- z))) (- z) []) as Hne.
+    pose proof (hex_roundtrip_nonneg (- z) ltac:(lia)) as Hr.
+    replace (Z.to_nat (Z.log2 (- z)) + 1)%nat with (S (Z.to_nat (Z.log2 (- z)))) in Hr by lia.
+    destruct (hex_digits (S (Z.to_nat (Z.log2 (- z)))) (- z) []) as [|a r]; [congruence|].
+    rewrite Hr. cbn [option_map]. f_equal. lia.
+  - unfold parse_int_text. cbn [starts_0x]. replace ((48 =? 48) && (120 =? 120)) with true by reflexivity. cbn [skipn].
+    replace (Z.to_nat (Z.log2 z) + 1)%nat with (S (Z.to_nat (Z.log2 z))) by lia.
+    pose proof (hex_digits_nonempty (Z.to_nat (Z.log2 z)) z []) as Hne.
+    pose proof (hex_roundtrip_nonneg z ltac:(lia)) as Hr.
+    replace (Z.to_nat (Z.log2 z) + 1)%nat with (S (Z.to_nat (Z.log2 z))) in Hr by lia.
+    destruct (hex_digits (S (Z.to_nat (Z.log2 z))) z []) as [|a r]; [congruence|].
+    exact Hr.
+Qed.
+
+Theorem int_text_roundtrip z : parse_int_text (int_text z) = Some z.
+Proof.
+  unfold int_text. destruct (bit_length z >? MAX_DECIMAL_BITS).
+  - apply hex_text_roundtrip.
+  - rewrite decimal_text_plain. apply decimal_roundtrip.
+Qed.
+
+(* the decimal form is only used for ints of at most 617 digits: below the smallest limit that
+   sys.set_int_max_str_digits accepts (640), so str() / int() never refuse it *)
+Lemma decimal_only_below_640_digits z :
+  (bit_length z >? MAX_DECIMAL_BITS) = false -> Z.abs z < 10 ^ 617.
+Proof.
+  unfold bit_length, MAX_DECIMAL_BITS. intros H. destruct (z =? 0) eqn:E0.
+  - assert (z = 0) by lia. subst. reflexivity.
+  - assert (Hl : Z.log2 (Z.abs z) < 2048) by lia.
+    assert (Hz : 0 < Z.abs z) by lia.
+    apply Z.log2_lt_pow2 in Hl; [|exact Hz].
+    assert (Hc : 2 ^ 2048 < 10 ^ 617) by (vm_compute; reflexivity).
+    lia.
+Qed.
+
 (* ------------------------------------------------------------------ *)
 (* 2. inner constants                                                   *)
 
@@ -137,13 +259,13 @@ Qed.
 
 Lemma as_const_int_obj s :
   as_const (interp_json (JObj [(lit "int", JStr s)])) =
-  match parse_int s with Some z => OK (IInt z) | None => Err ValueError end.
+  match parse_int_text s with Some z => OK (IInt z) | None => Err ValueError end.
 Proof. vmr. Qed.
 
 Lemma as_const_int z : as_const (interp_json (int_to_json z)) = OK (IInt z).
 Proof.
   unfold int_to_json. destruct (_ || _); [|reflexivity].
-  rewrite as_const_int_obj, decimal_roundtrip. reflexivity.
+  rewrite as_const_int_obj, int_text_roundtrip. reflexivity.
 Qed.
 
 Lemma as_const_str s : as_const (interp_json (str_to_json s)) = OK (IStr s).
